@@ -79,6 +79,16 @@ CHECKS = {
             "and a reader process race the writer (every read exactly A or B).",
             "Crash model: process death between two Python-visible I/O calls (no power-loss reordering below the FS API).",
             "DESIGN.md §3 C08"),
+    "C10": ("exploration",
+            "Hypothesis differential test: real batch driver (generated contract-following compute stub, real capture/staging/commit/apply) vs a sequential-loop reference; real-pipeline sub-check behind a known finding",
+            "Generated batches of 1-6 agents with arbitrary graph-set overlap, task order, worker limits, per-agent payloads (known and "
+            "unknown streams, unicode, 10 KB records), approved deltas, dialogue and staging byte limits from 1 byte to the default: "
+            "the driver's results, per-file log bytes and line order, snapshot bodies, version and store call log must equal the "
+            "sequential loop (records, real apply_changes, apply record per agent); compute may run only for the greedy pairwise-"
+            "disjoint selection in task order; staging must be disabled afterwards. The real stage pipeline through the driver is a "
+            "listed known finding (probe re-executed every run).",
+            "Trusted: the stub follows the dry-run contract of the repo's own identity tests; compute phases are sequential in this driver, so completion order is task order.",
+            "DESIGN.md §3 C10"),
     "C11": ("exploration",
             "Hypothesis property test: envelope predicates + exact differential against a float64 reference retrieval on well-separated cases + metamorphic rerank-off relation",
             "Generated memories (owners, timestamps around the recency window, clusters, importance, bag-of-words/explicit/zero/missing "
